@@ -348,6 +348,7 @@ func runC01(p *Prog, r *Report, tier string) {
 		r.Check(nLk == 2, "R-LAYOUT.field-specifier", fnKey(fr)+": registry lookup by (big-endian id bytes, enterprise number)", p.pos(fr.Pos()), "both branches", "the element id used for the registry lookup is not the big-endian value of the id bytes read from the wire", true)
 	}
 	checkSpecifierFreshness(p, r, "R-LAYOUT.field-specifier-fresh")
+	checkRecordLoopExits(p, r, "R-LAYOUT.record-loop")
 	// framing of the stream transports (C11's rules, imported) and unconditional template replacement (C04's rule)
 	checkFraming(p, r)
 	checkTemplateReplace(p, r)
@@ -384,18 +385,13 @@ func runC01(p *Prog, r *Report, tier string) {
 		})
 	}
 	r.Check(len(producers) == 1 && producers[0] == fnKey(dp), "R-OWNER.producer", "pkg/collector: producers of decoded messages", p.pos(dp.Pos()), "only decodePacket sends on messageChan", fmt.Sprintf("messages are produced by %v", producers), true)
-	callers := map[string]bool{}
-	for _, cs := range g.callers[dp] {
-		callers[fnKey(cs.Parent())] = true
-	}
+	// reachability, not caller names: a refactor may put a helper between the reader loop and the decoder
 	tcp, udp := false, false
-	for k := range callers {
-		if strings.Contains(k, "handleTCPClient") {
-			tcp = true
-		}
-		if strings.Contains(k, "createUDPClient") {
-			udp = true
-		}
+	if st := p.Fn("(*pkg/collector.CollectingProcess).startTCPServer"); st != nil {
+		tcp = g.reach(st)[dp]
+	}
+	if su := p.Fn("(*pkg/collector.CollectingProcess).startUDPServer"); su != nil {
+		udp = g.reach(su)[dp]
 	}
 	hu := p.Fn("(*pkg/collector.CollectingProcess).handleUDPMessage")
 	nHU := 0
